@@ -187,6 +187,8 @@ def query_grid():
     ops += queries()                                    # both requests pending
     ops.append(f"respond req={r0} prov={P1} code=200 out=valid")
     ops += queries()                                    # one answered (stored, no longer pending), one pending
+    ops.append(f"respond req={r1} prov={P2} code=400 out=absent")
+    ops += queries()                                    # both answered, one of them with an error result and no output
     ops += ["endblock dt=5000000000"] * 3
     ops += queries()                                    # batch expired, records cleaned, earnings present
     ops += ["endblock dt=5000000000"] * 2
@@ -294,6 +296,42 @@ def boundary_grid():
     return out
 
 
+def genesis_grid():
+    """C19: export points chosen to contain what the preparation and the import must get right: a provider that is its
+    own owner and has set a withdrawal address, an owner whose withdrawal address is itself, earnings and a pending
+    request side by side, a provider address that is not 20 bytes long with earnings, several contexts in different
+    states, a refunded (empty) deposit, a binding with promotions."""
+    out = []
+    O2 = "0a" * 20
+    SELF = "0b" * 20                     # provider = owner
+    P19 = "22" * 19
+    for variant in ("prep", "noprep"):
+        ops = [genesis(), f"fund acct={O1} amt=1000000", f"fund acct={O2} amt=1000000", f"fund acct={SELF} amt=1000000",
+               f"fund acct={C1} amt=100000", f"fund acct={'04' * 20} amt=100000",
+               f"define name=svc author={O1} schema=ok", f"define name=a-b author={O2} schema=ok",
+               f"bind svc=svc prov={P1} owner={O1} dep=10000 price=5stake promT=- promV=- qos=1",
+               f"bind svc=svc prov={SELF} owner={SELF} dep=10000 price=7stake promT=- promV=2:500000000000000000 qos=1",
+               f"bind svc=a-b prov={P19} owner={O2} dep=10000 price=30stake promT=1000000000000:2000000000000:500000000000000000 promV=- qos=1",
+               f"bind svc=a-b prov={P2} owner={O2} dep=10000 price=3stake promT=- promV=- qos=1",
+               f"setwd owner={SELF} addr={'05' * 20}", f"setwd owner={O1} addr={C1}", f"setwd owner={O1} addr={O1}",
+               f"call tx={tx(0xC19)} idx=0 svc=svc provs={P1},{SELF} cons={C1} cap=100 timeout=3 super=0 rep=1 freq=4 total=5 input=ok",
+               f"call tx={tx(0xC19)} idx=1 svc=a-b provs={P19},{P2} cons={'04' * 20} cap=100 timeout=2 super=0 rep=0 freq=0 total=0 input=ok",
+               f"call tx={tx(0xC1A)} idx=0 svc=svc provs={P1} cons={C1} cap=100 timeout=2 super=1 rep=1 freq=2 total=-1 input=ok",
+               "endblock dt=5000000000",
+               f"respond req={req_id(0xC19, 1, 1, 1)} prov={SELF} code=200 out=valid",
+               f"respond req={ctx_id(0xC19, 1)}{'%016x%016x%04x' % (1, 1, 0)} prov={P19} code=200 out=valid",
+               f"pause ctx={ctx_id(0xC1A)} cons={C1}",
+               f"disable svc=a-b prov={P2} owner={O2}",
+               "endblock dt=1728000000000000",
+               f"refund svc=a-b prov={P2} owner={O2}",
+               "endblock dt=5000000000"]
+        if variant == "prep":
+            ops.append("prep")
+        ops += ["export", "validate", "jsonrt", "reimport"]
+        out.append((f"grid:genesis:{variant}", ops))
+    return out
+
+
 GRIDS = {
     "lifecycle": lambda: lifecycle_grid() + lifecycle_grid(T=2, F=2, total=-1, horizon=7),
     "respond": respond_grid,
@@ -301,12 +339,13 @@ GRIDS = {
     "query": query_grid,
     "pricing": pricing_grid,
     "boundary": boundary_grid,
+    "genesis": genesis_grid,
 }
 
 # which grids each property runs
 FOR_PROPERTY = {
     "C01": ["respond", "pricing"], "C02": ["respond", "lifecycle", "pricing"], "C04": ["respond"], "C08": ["respond"],
     "C09": ["lifecycle"], "C10": ["lifecycle"], "C11": ["lifecycle", "respond"], "C12": ["module", "respond"],
-    "C16": ["lifecycle", "respond"], "C06": ["respond", "pricing", "module"], "C18": ["respond"], "C20": ["lifecycle", "boundary"],
+    "C16": ["lifecycle", "respond"], "C06": ["respond", "pricing", "module"], "C18": ["respond"], "C20": ["lifecycle", "boundary"], "C19": ["genesis"],
     "C17": ["query"], "C15": ["query"], "C07": ["pricing", "respond"],
 }
